@@ -20,6 +20,7 @@ import (
 	"net"
 	"os"
 	"runtime"
+	"sort"
 	"strings"
 	"sync"
 	"sync/atomic"
@@ -733,6 +734,115 @@ func ackeffect(r *hx.Rng, f *failures, stats map[string]int) {
 	stats["ackeffect"]++
 }
 
+// inproc: the in-process API under nested and concurrent use.  A subscriber that publishes from inside its callback
+// (a bridge), and two goroutines publishing on disjoint topics at once: every Server.Publish reaches exactly the
+// subscribers of ITS topic, in-process ones and connected clients alike (C01).
+func inproc(r *hx.Rng, f *failures, stats map[string]int) {
+	b := newBroker()
+	var mu sync.Mutex
+	got := map[string][]string{} // subscriber -> topic=payload received
+	sub := func(name, topic string, bridge string) *service.OnPublishFunc {
+		fn := service.OnPublishFunc(func(m *message.PublishMessage) error {
+			mu.Lock()
+			got[name] = append(got[name], string(m.Topic())+"="+string(m.Payload()))
+			mu.Unlock()
+			if bridge != "" {
+				o := message.NewPublishMessage()
+				o.SetTopic([]byte(bridge))
+				o.SetPayload(append([]byte("via "+name+": "), m.Payload()...))
+				return b.svr.Publish(o)
+			}
+			return nil
+		})
+		b.svr.Subscribe(topic, 0, &fn)
+		return &fn
+	}
+	// nested: A bridges in/x to out/x; B also holds in/x; C and D hold out/x; a connected client holds both
+	sub("A", "in/x", "out/x")
+	sub("B", "in/x", "")
+	sub("C", "out/x", "")
+	sub("D", "out/x", "")
+	cl, err := b.connect("ipc", 60, nil)
+	if err != nil {
+		f.add("harness: %v", err)
+		return
+	}
+	cl.write(mq.Subscribe(1, []string{"in/#", "out/#"}, []int{0, 0}))
+	cl.read(5 * time.Second)
+	m := message.NewPublishMessage()
+	m.SetTopic([]byte("in/x"))
+	m.SetPayload([]byte("hello"))
+	b.svr.Publish(m)
+	cl.write(mq.Pingreq())
+	var clGot []string
+	for {
+		pk, err := cl.read(5 * time.Second)
+		if err != nil || mq.Type(pk) == mq.PINGRESP {
+			break
+		}
+		if mq.Type(pk) == mq.PUBLISH {
+			pub, _ := mq.ParsePublish(pk)
+			clGot = append(clGot, pub.Topic+"="+string(pub.Payload))
+		}
+	}
+	sort.Strings(clGot)
+	mu.Lock()
+	want := map[string]string{"A": "in/x=hello", "B": "in/x=hello", "C": "out/x=via A: hello", "D": "out/x=via A: hello"}
+	for n, w := range want {
+		if strings.Join(got[n], "|") != w {
+			f.add("C01: in-process subscriber %s received %q where a publish on in/x (bridged by A to out/x) must give it exactly %q", n, got[n], w)
+		}
+	}
+	mu.Unlock()
+	if strings.Join(clGot, "|") != "in/x=hello|out/x=via A: hello" {
+		f.add("C01: the connected client holding in/# and out/# received %q, expected the publish on in/x and the bridged one on out/x", clGot)
+	}
+	// concurrent: two goroutines publish on disjoint topics, four subscribers each
+	mu.Lock()
+	got = map[string][]string{}
+	mu.Unlock()
+	for _, t := range []string{"p/1", "p/2"} {
+		for k := 0; k < 4; k++ {
+			sub(fmt.Sprintf("%s#%d", t, k), t, "")
+		}
+	}
+	const n = 3000
+	var wg sync.WaitGroup
+	for _, t := range []string{"p/1", "p/2"} {
+		wg.Add(1)
+		go func(t string) {
+			defer wg.Done()
+			for i := 0; i < n; i++ {
+				o := message.NewPublishMessage()
+				o.SetTopic([]byte(t))
+				o.SetPayload([]byte(t))
+				b.svr.Publish(o)
+			}
+		}(t)
+	}
+	wg.Wait()
+	mu.Lock()
+	for _, t := range []string{"p/1", "p/2"} {
+		for k := 0; k < 4; k++ {
+			name := fmt.Sprintf("%s#%d", t, k)
+			foreign := 0
+			for _, x := range got[name] {
+				if x != t+"="+t {
+					foreign++
+				}
+			}
+			if len(got[name]) != n || foreign > 0 {
+				f.add("C01: in-process subscriber of %s received %d messages (%d of them of another topic) while two goroutines published %d messages each on p/1 and p/2", t, len(got[name]), foreign, n)
+			}
+		}
+	}
+	mu.Unlock()
+	cl.c.Close()
+	b.expectStops(f, 1, 10*time.Second, "inproc")
+	b.shutdown(f, "inproc")
+	stats["inproc"]++
+}
+
 // resume: a persistent session is resumed again and again while a publisher floods its stored subscription with
 // packets larger than the sender's write block.  On every resumed connection the first packet must be the CONNACK
 // (with session-present) and everything after it whole, intact PUBLISH packets in publication order (C17, C10).
@@ -1139,6 +1249,27 @@ func keepalive(f *failures, stats map[string]int) {
 		close(stop)
 		c.c.Close()
 	}()
+	// silent in the middle of a packet: the last bytes before the silence are the beginning of a packet (a link that
+	// dies mid-packet is what the keep-alive exists for)
+	for i, part := range [][]byte{{0x30, 0x14, 0x00, 0x03, 'a', '/', 'b'}, {0x30}} {
+		wg.Add(1)
+		go func(i int, part []byte) {
+			defer wg.Done()
+			c, err := b.connect(fmt.Sprintf("partial%d", i), 1, &mq.ConnectOpts{WillTopic: fmt.Sprintf("will/partial%d", i), WillMsg: []byte("gone")})
+			if err != nil {
+				f.add("harness: %v", err)
+				return
+			}
+			c.write(mq.Pingreq())
+			c.read(2 * time.Second)
+			c.write(part)
+			t0 := time.Now()
+			_, err = c.read(6 * time.Second)
+			if err == nil || strings.Contains(err.Error(), "timeout") {
+				f.add("C19: a client with keep-alive 1s that went silent for %v after the first %d byte(s) of a packet was not disconnected", time.Since(t0), len(part))
+			}
+		}(i, part)
+	}
 	// active at uneven intervals, every one shorter than K: a short gap followed by a long one (a deadline that is
 	// not re-armed at every read is still running from the packet before)
 	rng := hx.NewRng(hx.EnvSeed() + 19)
@@ -1183,7 +1314,7 @@ func keepalive(f *failures, stats map[string]int) {
 			got[pub.Topic] = true
 		}
 	}
-	for _, t := range []string{"will/silent0", "will/silent1", "will/silent-receiving"} {
+	for _, t := range []string{"will/silent0", "will/silent1", "will/silent-receiving", "will/partial0", "will/partial1"} {
 		if !got[t] {
 			f.add("C19: the will of a client dropped for inactivity (%s) was not published", t)
 		}
@@ -1227,6 +1358,8 @@ func main() {
 				churn(r, f, stats)
 			case "ackeffect":
 				ackeffect(r, f, stats)
+			case "inproc":
+				inproc(r, f, stats)
 			case "resume":
 				resume(r, f, stats)
 			case "retrace":
